@@ -1,7 +1,7 @@
 #!/bin/sh
 # usage: conf.sh <dir> <ntraces> <seed>   - random walks + TraceConf for the three profiles (development helper)
 D=/verif/work/$1
-rm -rf $D; PYTHONHASHSEED=0 PYTHONPATH=/verif/harness /venv/bin/python /verif/harness/walk.py $D $2 $3 || exit 3
+rm -rf $D; MQTT_SRC=${MQTT_SRC:-/repo/src} PYTHONHASHSEED=0 PYTHONPATH=/verif/harness /venv/bin/python /verif/harness/walk.py $D $2 $3 || exit 3
 cd /verif/spec/trace
 for p in pub sub both; do
   TRACE_FILE=$D/$p.ndjson INDEX_FILE=$D/$p.idx.json JOPTS="-Xmx6g -Xss32m" timeout 1200 /verif/bin/tlcrun conf-$1-$p -workers 16 -config TraceConf_$p.cfg TraceConf.tla > $D/$p.out 2>&1
